@@ -40,15 +40,19 @@ def _worker(job):
     w = World()
     states = trans = 0
     import time as _time
-    t_stop = _time.time() + (600 if _G["tier"] == "quick" else 4300)
+    t_stop = _time.time() + (450 if _G["tier"] == "quick" else 4300)
+    from . import explorer as _ex
+    _ex.DEADLINE[0] = min(_ex.DEADLINE[0] or 1e18, t_stop + 120)        # a single exploration must not outlive the job either
     for mode, entries in configs:
         if _time.time() > t_stop:
             rep.inconc("time budget of the worker exhausted before configuration %r" % ((mode, entries),))
             break
-        if len(rep.violations) >= 8:
-            break          # enough counterexamples from this share of the configurations
+        if len(rep.violations) >= 3:
+            break          # enough (distinct) counterexamples from this share of the configurations
         kw = {"exclude_pgns": list(entries)} if mode == "exclude" else {"include_pgns": list(entries)}
         for hist in histories:
+            if len(rep.violations) >= 3 or _time.time() > t_stop:
+                break
             def h():
                 before = list(entries)
                 filt = R.decoder.NMEA2000Decoder(**{k: list(v) for k, v in kw.items()})
